@@ -256,6 +256,16 @@ def layout_texts():
                               "    xs = [x for i \\\n in range(3)]\n", "    ys = [x for i in range(2) for j  # inner\n          in range(2)]\n",
                               "    for i in (  # the bounds\n            range(3)):\n        z = x + x\n"]):
         out.append((f"in-on-another-line-{k}", H + body + T))
+    # fourteenth seeding round: boolean chains of three and more operands (each operator is displayed), imports of
+    # dotted / missing / special modules (nothing is looked up or imported), bare annotations, augmented assignments
+    for k, body in enumerate(["    b = True and False and True\n", "    c = True or False or True or False\n", "    d = (True and\n         False and\n         True)\n",
+                              "    e = not True and False or True and True\n", "    f = x < y and y < x and True\n"]):
+        out.append((f"boolean-chain-{k}", H + body + T))
+    for k, line in enumerate(["from no_such_pkg.sub import f", "from no_such_pkg_xyz import f", "from __main__ import helper", "from os.path import join",
+                              "from nada_dsl.audit.no_such import thing", "from . import helpers", "from .. import helpers", "from json.decoder import JSONDecoder as D",
+                              "import no_such_pkg.sub", "import os.path as osp"]):
+        out.append((f"import-{k}", "from nada_dsl import *\n" + line + "\n" + H.split("\n\n", 1)[1] + T))
+        out.append((f"import-in-function-{k}", H + "    " + line + "\n" + T))
     return out
 
 
